@@ -1,9 +1,8 @@
 import Geo.Props.C17
-open Geo
-#print axioms fanTerm_is_det
-#print axioms T17_fan_eq_shoelace
-#print axioms T17_crs_antisymm
-#print axioms T17_fan_affine
-#print axioms T17_binet_cauchy
-#print axioms T17_cayley_menger_triangle
-#print axioms T17_midpoint
+#print axioms Geo.fanTerm_is_det
+#print axioms Geo.T17_fan_eq_shoelace
+#print axioms Geo.T17_crs_antisymm
+#print axioms Geo.T17_fan_affine
+#print axioms Geo.T17_binet_cauchy
+#print axioms Geo.T17_cayley_menger_triangle
+#print axioms Geo.T17_midpoint
